@@ -30,7 +30,15 @@ Trees0 ==
   {[leaves |-> <<a, c>>, dl |-> <<1, 1>>] : a \in LP2, c \in LP2}
   \cup {[leaves |-> <<a, c, d>>, dl |-> <<1, 2, 2>>] : a \in LP3, c \in LP3, d \in LP3}
   \cup {[leaves |-> <<a, c, d>>, dl |-> <<2, 2, 1>>] : a \in LP3, c \in LP3, d \in LP3}
+\* a leaf one of whose branches mixes lock units (not liftable, refused by the sane descriptor
+\* parser, accepted by Tr::from_str) next to ordinary leaves
+MixedLeaf == Bin("or_d", Un("c", Leaf("pk_k", 1)),
+                 Bin("and_v", Un("v", Un("c", Leaf("pk_k", 2))), Bin("and_v", Un("v", Leaf("after", 100)), Leaf("after", 500000100))))
+MixedTrees == {[leaves |-> <<MixedLeaf>>, dl |-> <<0>>]}
+              \cup {[leaves |-> Disjoint(<<MixedLeaf, a>>), dl |-> <<1, 1>>] : a \in LP2}
+              \cup {[leaves |-> Disjoint(<<a, MixedLeaf>>), dl |-> <<1, 1>>] : a \in LP2}
 Trees ==
+  MixedTrees \cup
   {[leaves |-> <<>>, dl |-> <<>>]}
   \cup {[leaves |-> <<a>>, dl |-> <<0>>] : a \in LP1}
   \cup Trees0 \cup {[t EXCEPT !.leaves = Disjoint(t.leaves)] : t \in Trees0}
